@@ -73,6 +73,11 @@ def run(ctx):
         if not ok:
             continue
         full = b + chk
+        if i % 7 == 0:
+            # garbage met earlier (illegal characters at any position: refused or raising - not judged) leaves nothing behind
+            # (ONE call per occasion: whatever it consumed or memoised stays as it is for the identifiers that follow)
+            g_ = ("-84670207", "08-670207", "é84670207", "0846-0207", "08467 207", "-")[(i // 7) % 6]
+            call(utils.validate_cusip, g_)
         evs.append({"id": "cv%d" % i, "op": "validate_cusip", "id_": full, "out": outb(*call(utils.validate_cusip, full))})
         thin = i % (1 if i < ngrid else 5) == 0
         for ch in (CUSIP_ALPHA if thin else rnd.sample(CUSIP_ALPHA, 4)):
